@@ -2857,9 +2857,13 @@ func calculateReconnectDelay(attempt int) time.Duration {
 		return 0
 	}
 	// Calculate the exponential backoff using the grow factor.
-	backoffDuration := time.Duration(float64(reconnectInitialDelay.Load()) * math.Pow(reconnectGrowFactor, float64(attempt-1)))
-	// Cap the backoffDuration at maxDelay.
-	backoffDuration = min(backoffDuration, reconnectMaxDelay)
+	backoff := float64(reconnectInitialDelay.Load()) * math.Pow(reconnectGrowFactor, float64(attempt-1))
+	// Cap the backoffDuration at maxDelay. (Compare before converting: from
+	// about the 58th attempt on the product no longer fits a time.Duration.)
+	backoffDuration := reconnectMaxDelay
+	if backoff < float64(reconnectMaxDelay) {
+		backoffDuration = time.Duration(backoff)
+	}
 
 	// Use a full jitter using backoffDuration
 	jitter := rand.N(backoffDuration)
